@@ -340,6 +340,24 @@ Section ScannerProofs.
     destruct (drainF_wb_more W true st0 data) as (ts & st' & b' & E). rewrite E. reflexivity.
   Qed.
 
+  (* a well-behaved split function never makes Scan fail, whatever the delivery *)
+  Lemma scan_from_done : wb -> forall last_eof chunks st b e,
+    reader_ok last_eof e chunks -> snd (scan_from last_eof st b e chunks) = Done.
+  Proof.
+    intros W last_eof.
+    assert (F : forall st b, snd (finish Done st b) = Done).
+    { intros st b. unfold Scanner.finish.
+      destruct (drainF_wb_more W true st b) as (ts & s2 & b2 & E). rewrite E. reflexivity. }
+    induction chunks as [|c cs IH]; intros st b e Hr; cbn [Scanner.scan_from]; [apply F|].
+    cbn [reader_ok] in Hr. destruct (nilb c).
+    - destruct (last_eof && nilb cs); [apply F|]. destruct Hr as [He Hr].
+      replace (Nat.leb max_empty_reads e) with false by (symmetry; apply Nat.leb_gt; exact He).
+      apply IH. exact Hr.
+    - destruct (last_eof && nilb cs); [apply F|].
+      destruct (drainF_wb_more W false st (b ++ c)) as (ts & s2 & b2 & E). rewrite E.
+      unfold Scanner.tapp. cbn [snd]. apply IH. exact Hr.
+  Qed.
+
   (* ---------- losslessness for any chunking (no stability needed) ---------- *)
 
   (* every token stands for exactly the bytes consumed with it, nothing is skipped, and at EOF
